@@ -104,6 +104,28 @@ def c23Step (line : String) : String :=
           ";" ++ ",".intercalate (tr.map c23Ev))
       | none => "bad-op"
     | _, _, _ => "bad-op"
+  | "lrun" :: evs =>
+    -- per-instance start/stop events of updates in flight: `B;so;keys` `S;k` `D` `U;k=srv` `C;dh;dp;tp;ok`
+    let parse := fun (e : String) =>
+      match e.splitOn ";" with
+      | ["B", so, keys] => match c23Keys keys with
+        | some ks => if so == "1" then some (C23.LEv.beginUpdate true ks) else if so == "0" then some (.beginUpdate false ks) else none
+        | none => none
+      | ["S", k] => k.toNat?.map C23.LEv.stopped
+      | ["D"] => some .stopsDone
+      | ["U", ks] => match c23Keyed ks with
+        | some [(k, srv)] => some (.started k srv)
+        | _ => none
+      | ["C", dh, dp, tp, ok] =>
+        match hexOr dh, dp.toNat?, c23Tp tp with
+        | some dh, some dp, some tp => if ok == "1" then some (.connect dh dp tp true)
+                                       else if ok == "0" then some (.connect dh dp tp false) else none
+        | _, _, _ => none
+      | _ => none
+    match evs.mapM parse with
+    | some evs => " ".intercalate ((C23.lrun C23.LState.empty evs).filterMap fun o =>
+        o.map fun tr => "T;" ++ ",".intercalate (tr.map c23Ev))
+    | none => "bad-op"
   | "run" :: ops =>
     match ops.mapM c23Op with
     | some ops => " ".intercalate ((C23.run [] ops).map c23ShowOut)
